@@ -36,6 +36,7 @@ PROP_FILES = ["HtmlVerif/Props/C10.lean", "HtmlVerif/Props/SrcC10.lean"]
 NAMES = ["a", "b"]
 VERSIONS = ["1.9", "1.10", "1.10.0", "2"]
 KINDS = [(n, v) for n in NAMES for v in VERSIONS]
+PROP_FILES.append("HtmlVerif/Props/SrcC10b.lean")   # source tie: HTMLDependency.__init__, _validate_dict(s)
 WIDE_VERSIONS = ["1.9", "1.10", "1.10.0", "2", "10", "2.0.0", "1.0a1", "1.0rc1", "1.0", "1.0.post1", "1.0.dev0", "1!0.5",
                  "1.0+local", "0.0.1", "0", "1.10.1", "1.9.9", "2.0.1", "1.0b2", "2.dev3"]
 
@@ -489,6 +490,9 @@ def run(tier: str) -> int:
                 ck.py_violation(l, im, f"expected objects {want} (one per name in first-occurrence order, highest version, earliest on ties"
                                        f"{'' if dedup else '; dedup off: all, in document order'}), got {got}")
         n_or += 1
+    import srctie_c10b   # source tie of the constructor: translator validation (`__init__` needs packaging's answers: op srcc10b)
+    srctie_c10b.add_src_c10b(ck, ['HTMLDependency_init'])
+    ck.add_src(['HTMLDependency_validate_dict', 'HTMLDependency_validate_dicts'])
     ck.extra_cov["placement_groups"] = len(groups)
     phase["python_oracles"] = round(time.time() - t1, 1)
     t1 = time.time()
